@@ -196,6 +196,8 @@ func (s *lifeSess) state(tr *vh.Transcript) {
 		l = "-"
 	}
 	tr.Out("state live=%s runs=%d pipes=%d sched=%s listed=%d", l, runs, pipes, sched, b2iLife(listed))
+	// the two directions of the relay, by goroutine (Model/Relay.lean: at most one of each)
+	tr.Out("relay s2d=%d d2s=%d", strings.Count(st, "proxy.(*Pipe).sourceToDest("), strings.Count(st, "proxy.(*Pipe).destToSource("))
 }
 
 func lifeEndKind(err error) string {
@@ -432,9 +434,22 @@ func lifeGen(r *vh.Rng) []string {
 			ops = append(ops, "shutdown")
 		case k < 92:
 			ops = append(ops, fmt.Sprintf("poolreach pb %d", r.Intn(2)))
+		case k < 96:
+			// a contract pool that fails and cannot be reconnected: the relay exits, the miner goes back to its
+			// primary pool and the relay is started again
+			id++
+			ops = append(ops, fmt.Sprintf("task c%d pb 30000", i), "poolclose pb", "poolreach pb 0", "advance 3500",
+				fmt.Sprintf("msubmit %d pa-j1", id), "advance 1000", "poolreach pb 1")
 		default:
 			ops = append(ops, "advance 3100", "pnotify pa jx", fmt.Sprintf("msubmit %d jx", id+50))
 		}
+	}
+	if r.Bool(10) {
+		// the history ends while a change of destination is waiting for a pool answer: the contract pool failed, the
+		// task's deadline brought the miner back to its primary pool over the old pipe (whose pool-to-miner direction
+		// is finished), a share forwarded there stays unanswered, and the next task's change of destination waits for it
+		ops = append(ops, fmt.Sprintf("task c%d pb 2000", n+1), "poolclose pb", "advance 2100", fmt.Sprintf("msubmit %d pa-j1", id+90),
+			fmt.Sprintf("task c%d pc 30000", n+2))
 	}
 	return ops
 }
